@@ -78,6 +78,9 @@ func (d *RepoDir) openBadger() (*badger.DB, error) {
 }
 
 func (d *RepoDir) OpenObjectsStore() (objects.Store, error) {
+	if s, ok := verifObjectsStore(d); ok {
+		return s, nil
+	}
 	badgerDB, err := d.openBadger()
 	if err != nil {
 		return nil, err
@@ -94,6 +97,9 @@ func (d *RepoDir) OpenObjectsTransaction() (*objbadger.Txn, error) {
 }
 
 func (d *RepoDir) OpenRefStore() ref.Store {
+	if s, ok := verifRefStore(d); ok {
+		return s
+	}
 	return refsql.NewStore(d.db)
 }
 
